@@ -181,7 +181,8 @@ fn churn(r: &mut Rng) -> Profile {
     p.conn_fault_pct = 8;
     p.max_conns = 12;
     p.rm_choices = vec![None];
-    p.mps_choices = vec![None];
+    // some brokers limit the packet size: requests above it are refused and must occupy nothing
+    p.mps_choices = vec![None, None, None, Some(48), Some(120)];
     p.maxqos_choices = vec![None];
     p.assigned_id_pct = 0;
     p.extra_connack_props_pct = 0;
@@ -219,7 +220,7 @@ impl Check for C17 {
         if tier == Tier::Quick { 200 } else { 2000 }
     }
     fn required_counters(&self) -> Vec<&'static str> {
-        vec!["compactions_moving_entries", "arena_entries_compared", "batteries_compared", "retransmissions_compared"]
+        vec!["compactions_moving_entries", "arena_entries_compared", "batteries_compared", "retransmissions_compared", "refused_requests_checked", "acknowledged_entries_freed"]
     }
     fn run(&self, workload: usize, seed: u64, _index: u64, tier: Tier, verbose: bool) -> CaseOut {
         let mut out = CaseOut::default();
